@@ -96,6 +96,18 @@ def kill_plans(base):
     return plans
 
 
+def quick_selection(plans, si):
+    """quick tier: the database state just after commit k is the state just before commit k+1, so killing just BEFORE
+    every commit visits every state between two commits; the first site gets every commit and request index, the
+    others every second one (the thorough tier runs all four kill modes at every index of every site)"""
+    at_c = [p for p in plans if 'kill_at_commit' in p]
+    at_r = [p for p in plans if 'kill_at_request' in p]
+    af_r = [p for p in plans if 'kill_after_request' in p]
+    if si == 0:
+        return at_c + at_r
+    return at_c[si % 2::2] + (af_r if si % 2 else at_r)[::2]
+
+
 def property_on_impl(case, base, result):
     """the clauses of C03 on the observables of (killed run, rerun) against the uninterrupted run"""
     out = []
@@ -207,7 +219,7 @@ def coq_check(items, per=30):
 def correspondence(ctx):
     r = common.rng('c03')
     cases = fixed_cases()
-    n_random = 2 if not ctx.thorough else 60
+    n_random = 0 if not ctx.thorough else 60
     for i in range(n_random):
         cases.append(('random-%d' % i, es.gen_case(r, hosts=r.choice([1, 2]), conc=1 if i % 3 else 2,
                                                    n_pages=r.randrange(4, 7 if not ctx.thorough else 10))))
@@ -216,11 +228,11 @@ def correspondence(ctx):
     per_site = {}
     fired = 0
     distinct = set()
-    for tag, case in cases:
+    for si, (tag, case) in enumerate(cases):
         base = es.run_case(case, ctx.repo)
         plans = kill_plans(base)
-        if not ctx.thorough and len(plans) > 150:          # keep the quick tier inside its budget: every 2nd commit kill
-            plans = plans[::2]
+        if not ctx.thorough:
+            plans = quick_selection(plans, si)
         results = run_kills(case, plans, ctx.repo)
         nf = 0
         for plan, result in zip(plans, results):
@@ -243,7 +255,8 @@ def correspondence(ctx):
         'kills_fired': fired,
         'distinct_nontrivial': len(distinct),
         'exhaustive': 'every commit index (before/after) and every request index (on receipt/after the response) of each listed site'
-                      if ctx.thorough else 'every request index and every commit index (every 2nd for sites with > 75 commits)',
+                      if ctx.thorough else 'first site: every commit index (killed just before it) and every request index; other '
+                      'sites: every second index (thorough tier: all four kill modes at every index)',
         'rule': 'kill enumeration: for each site, one uninterrupted run and one (killed run, rerun) pair per kill point; each pair replayed '
                 'on the Coq model as one execution with LCrash; non-trivial = distinct (site, kill point) where the kill fired and left '
                 'rows todo or in_progress in the database',
@@ -255,20 +268,43 @@ def correspondence(ctx):
 
 
 def search(ctx, disagreements):
+    """look for a (site, kill point) on which a clause of the property fails on the implementation:
+    the disagreeing pairs themselves, then all four kill modes at every index of the fixed sites,
+    then a few generated sites; stops at the first site that yields violations (bounded: ~250 pairs)"""
     r = common.rng('c03-search')
     out = []
-    cases = []
-    for d in disagreements[:10]:
-        if 'case' in d:
-            cases.append(es.case_from_json(d['case']))
-    for i in range(8):
-        cases.append(es.gen_case(r, hosts=r.choice([1, 2, 2]), conc=1, n_pages=r.randrange(4, 9)))
-    for case in cases:
+    budget = [250]
+
+    def try_case(case, plans):
+        plans = plans[:max(0, budget[0])]
+        budget[0] -= len(plans)
+        if not plans:
+            return
         base = es.run_case(case, ctx.repo)
-        plans = kill_plans(base)
         for plan, result in zip(plans, run_kills(case, plans, ctx.repo)):
             for v in property_on_impl(case, base, result):
                 out.append(dict(v, case=es.case_to_json(case), kill=plan))
+
+    seen = {}
+    for d in disagreements[:40]:
+        if 'case' in d and d.get('kill'):
+            key = json.dumps(d['case'], sort_keys=True)
+            seen.setdefault(key, (es.case_from_json(d['case']), []))[1].append(d['kill'])
+    for case, plans in seen.values():
+        try_case(case, plans[:12])
+    if out:
+        return out
+    for tag, case in fixed_cases():
+        base = es.run_case(case, ctx.repo)
+        try_case(case, kill_plans(base))
+        if out or budget[0] <= 0:
+            return out
+    for i in range(4):
+        case = es.gen_case(r, hosts=r.choice([1, 2, 2]), conc=1, n_pages=r.randrange(4, 8))
+        base = es.run_case(case, ctx.repo)
+        try_case(case, kill_plans(base))
+        if out or budget[0] <= 0:
+            break
     return out
 
 
